@@ -606,9 +606,14 @@ class CtorChecker:
                 return {"G": GraphParamV(), "delimiter": Const("|")}
             self._each_world(cls, fn, env_of, tsyms, tcons,
                              lambda ot, w, kind, val, n=n: self._judge_rows(construct, "C09.rows", n, ot, w, kind, val), n)
+            if n == 1:
+                # the stored pair is a self-loop (u == v)
+                self._each_world(cls, fn, env_of, tsyms, tcons,
+                                 lambda ot, w, kind, val, n=n: self._judge_rows(construct, "C09.rows", n, ot, w, kind, val, loop=True), n,
+                                 extra_cfg=dict(loop=True))
 
-    def _judge_rows(self, construct, clause, n, ot, w, kind, val):
-        wit = "%d interval(s) | order: %s" % (n, ot.describe())
+    def _judge_rows(self, construct, clause, n, ot, w, kind, val, loop=False):
+        wit = "%s%d interval(s) | order: %s" % ("self-loop, " if loop else "", n, ot.describe())
         if kind == "raise":
             self.add(clause, construct, "raises:%s" % val.exc, "the writer raises %s (%s)" % (val.exc, val.detail), wit,
                      getattr(val.node, "lineno", 0))
@@ -629,7 +634,7 @@ class CtorChecker:
                 return
             if isinstance(payload, RowV) and payload.delim != "|":
                 self.add(clause, construct, "delimiter", "rows are joined with %r instead of the requested delimiter" % payload.delim, wit)
-            if not (fields[0] == NodeV("U") and fields[1] == NodeV("V")):
+            if not (fields[0] == NodeV("U") and fields[1] == NodeV("U" if loop else "V")):
                 self.add(clause, construct, "orientation", "row fields are (%r, %r), expected (u, v) as enumerated" % (fields[0], fields[1]), wit)
             x = fields[2]
             if isinstance(x, LoopVar):
@@ -655,7 +660,7 @@ class CtorChecker:
             a, e = cnt(cover), cnt(want)
             if a != e:
                 where = "missing" if a < e else "duplicated"
-                self.add(clause, construct, "coverage:%s" % where,
+                self.add(clause, construct, "coverage:%s%s" % (where, ":self-loop" if loop else ""),
                          "instants from %r up to %r are emitted %d time(s), expected %d (one row per instant of presence)" % (
                              p, pts[i + 1], a, e), wit)
                 break
@@ -675,9 +680,13 @@ class CtorChecker:
             self._each_world(cls, fn, env_of, tsyms, tcons,
                              lambda ot, w, kind, val, n=n: self._judge_links(cls, construct, n, ot, w, kind, val), n,
                              world_cls=LinkWorld)
+            if n == 1:
+                self._each_world(cls, fn, env_of, tsyms, tcons,
+                                 lambda ot, w, kind, val, n=n: self._judge_links(cls, construct, n, ot, w, kind, val, loop=True), n,
+                                 world_cls=LinkWorld, extra_cfg=dict(loop=True))
 
-    def _judge_links(self, cls, construct, n, ot, w, kind, val):
-        wit = "%d interval(s) | order: %s" % (n, ot.describe())
+    def _judge_links(self, cls, construct, n, ot, w, kind, val, loop=False):
+        wit = "%s%d interval(s) | order: %s" % ("self-loop, " if loop else "", n, ot.describe())
         if kind == "ok":
             if not isinstance(val, DictObj):
                 self.add("C11.data", construct, "not-a-dict", "node_link_data returns %r" % (val,), wit)
@@ -700,7 +709,7 @@ class CtorChecker:
                         x = NodeEntry(x.entries[Const("id")], Const("id"))
                     norm.append(x)
                 roles = [x.node.role for x in norm if isinstance(x, NodeEntry) and x.idkey == Const("id")]
-                ok_nodes = len(roles) == len(nodes.items) and sorted(roles) == sorted({"U", "V"})
+                ok_nodes = len(roles) == len(nodes.items) and sorted(roles) == sorted({"U"} if loop else {"U", "V"})
             if not ok_nodes:
                 self.add("C11.data", construct, "nodes", "data['nodes'] is %r, expected one entry per node of G with its attributes and id" % (
                     nodes,), wit)
@@ -709,7 +718,7 @@ class CtorChecker:
                 self.add("C11.links", construct, "links-not-a-list", "data['links'] is %r" % (links,), wit)
                 return
             w.emitted = [(x, []) for x in links.items]
-        self._judge_rows(construct, "C11.links", n, ot, w, kind, val)
+        self._judge_rows(construct, "C11.links", n, ot, w, kind, val, loop=loop)
 
 
 class NodeList:
@@ -971,10 +980,16 @@ class RecipWorld(CtorWorld):
         fwd = (store == "succ" and (r1, r2) == ("U", "V")) or (store == "pred" and (r1, r2) == ("V", "U"))
         return self.d_out if fwd else self.d_in
 
+    def adjacency_rows(self, store):
+        """both directions are stored: U->V carries d_out, V->U carries d_in"""
+        if store == "succ":
+            return {"U": {"V": self.d_out}, "V": {"U": self.d_in}}
+        return {"V": {"U": self.d_out}, "U": {"V": self.d_in}}
+
     def concretise_iter(self, ip, it, node):
         if isinstance(it, (NodeMap, SelfV)):
             return ListObj([NodeV("U"), NodeV("V")])
-        return None
+        return super().concretise_iter(ip, it, node)
 
     def compare(self, ip, a, sym, b, node):
         if isinstance(a, NodeV) and isinstance(b, NodeV) and sym in ("<", "<=", ">", ">="):
